@@ -216,9 +216,24 @@ inline unsigned& case_timeout_s() { static unsigned t = 20; return t; }
 inline std::set<std::string>& skip_cases() { static std::set<std::string> s; return s; }
 inline volatile int& asan_errors() { static volatile int n = 0; return n; }
 
+// Flat enumerations (independent cases in a fixed order, e.g. fault enumeration) may declare themselves resumable:
+// the child checkpoints its report with the index of the next case about once per second; after a crash the parent
+// restarts the task from the last checkpoint instead of from the beginning (cases before it are skipped, their
+// results come from the checkpoint, so nothing is counted twice).
+struct Resume { bool enabled = false; uint64_t index = 0; uint64_t resume_from = 0; Report* report = nullptr; std::string file; double last = 0; };
+inline Resume& resume_state() { static Resume r; return r; }
+inline void set_resumable(Report& rep) { resume_state().enabled = true; resume_state().report = &rep; }
+void write_checkpoint();
+
 // record the case about to run; returns false if it is in the skip set (known to crash)
 inline bool journal(const std::string& scenario, const std::string& history) {
   Journal& j = journal_obj();
+  Resume& rs = resume_state();
+  if (rs.enabled) {
+    const uint64_t idx = rs.index++;
+    if (idx < rs.resume_from) return false;                       // already covered by the checkpoint
+    if ((idx & 127) == 0 && now_s() - rs.last > 1.0) { rs.index = idx; write_checkpoint(); rs.index = idx + 1; rs.last = now_s(); }
+  }
   std::string s = scenario + "\x1f" + history;
   if (skip_cases().count(s)) return false;
   size_t n = std::min(s.size(), j.cap - 1);
@@ -238,6 +253,14 @@ inline std::string read_file(const std::string& p) {
 inline void write_file(const std::string& p, const std::string& s) {
   FILE* f = fopen(p.c_str(), "wb"); if (!f) { perror(p.c_str()); exit(3); }
   fwrite(s.data(), 1, s.size(), f); fclose(f);
+}
+
+inline void write_checkpoint() {
+  Resume& rs = resume_state();
+  if (!rs.enabled || rs.file.empty() || !rs.report) return;
+  std::string tmp = rs.file + ".tmp";
+  write_file(tmp, std::to_string(rs.index) + "\n" + rs.report->serialize());
+  rename(tmp.c_str(), rs.file.c_str());
 }
 
 inline Config parse_args(int argc, char** argv) {
@@ -327,6 +350,7 @@ inline int run_tasks(const Config& cfg, const std::string& property, std::vector
   std::vector<std::set<std::string> > skips(tasks.size());
   std::vector<std::vector<Violation> > crashes(tasks.size());
   std::vector<std::string> results(tasks.size()); std::vector<int> attempts(tasks.size(), 0);
+  std::vector<uint64_t> resume_from(tasks.size(), 0); std::vector<std::string> ckpt_reports(tasks.size());
   std::vector<size_t> queue; 
   for (size_t i = 0; i < tasks.size(); ++i) {
     if (!cfg.only.empty() && tasks[i].name.find(cfg.only) == std::string::npos) continue;
@@ -345,7 +369,9 @@ inline int run_tasks(const Config& cfg, const std::string& property, std::vector
       if (pid == 0) {
         journal_obj().buf = slots + SLOT * (size_t)slot; journal_obj().cap = SLOT;
         skip_cases() = skips[ti];
+        resume_state() = Resume(); resume_state().file = base + ".ckpt" + std::to_string(ti); resume_state().resume_from = resume_from[ti];
         Report r; r.property = property; r.t0 = t0; r.deadline = t0 + cfg.budget_s;
+        if (!ckpt_reports[ti].empty()) r.merge_serialized(ckpt_reports[ti]);   // what the previous attempt had established up to its checkpoint
         try { tasks[ti].fn(r); }
         catch (const std::exception& e) { fprintf(stderr, "HARNESS-ERROR uncaught exception in task %s: %s\n", tasks[ti].name.c_str(), e.what()); _exit(4); }
         journal_clear();
@@ -363,6 +389,7 @@ inline int run_tasks(const Config& cfg, const std::string& property, std::vector
       size_t ti = r.task;
       if (WIFEXITED(st) && WEXITSTATUS(st) == 0) {
         results[ti] = read_file(base + ".task" + std::to_string(ti)); unlink((base + ".task" + std::to_string(ti)).c_str());
+        unlink((base + ".ckpt" + std::to_string(ti)).c_str());
       } else {
         std::string j = slots + SLOT * (size_t)r.slot;
         if ((WIFEXITED(st) && WEXITSTATUS(st) == 4) || j.empty()) {
@@ -374,8 +401,13 @@ inline int run_tasks(const Config& cfg, const std::string& property, std::vector
           v.key = property + "|" + v.scenario + "|crash-" + how;
           v.what = "process died (" + how + ") while executing this case";
           crashes[ti].push_back(v); skips[ti].insert(j);
+          { // resumable task: pick up its last checkpoint
+            std::string ck = read_file(base + ".ckpt" + std::to_string(ti));
+            size_t nl = ck.find('\n');
+            if (nl != std::string::npos) { resume_from[ti] = strtoull(ck.c_str(), nullptr, 10); ckpt_reports[ti] = ck.substr(nl + 1); }
+          }
           fprintf(stderr, "[journal] task %s died (%s) in case %s / %s; restarting with case skipped\n", tasks[ti].name.c_str(), how.c_str(), v.scenario.c_str(), v.history.c_str());
-          if (++attempts[ti] < 25) queue.push_back(ti);
+          if (++attempts[ti] < (ckpt_reports[ti].empty() ? 25 : 400)) queue.push_back(ti);
           else { // give up on this task but keep its crash findings
             Report rr; rr.property = property; rr.cap("task " + tasks[ti].name + ": more than 25 crashing cases; exploration abandoned");
             for (size_t k = 0; k < crashes[ti].size(); ++k) rr.violation(crashes[ti][k].key, crashes[ti][k].what, crashes[ti][k].scenario, crashes[ti][k].history);
